@@ -792,6 +792,46 @@ def run_books(ctx, rec, nproc):
 
 
 # ----------------------------------------------------------------------------------------------
+def probe_popname_collision(ctx, rec):
+    """A population whose code name is also the code name of a framework quantity -- with or WITHOUT a databook page -- must be refused with the dedicated error.
+    Built through the public API (rename_pop on a filled library databook, exported and read back), so that nothing else in the file is wrong."""
+    import atomica as at
+    import sciris as sc
+
+    for name in (["udt", "tb_simple"] if ctx.quick else ["udt", "tb_simple", "hypertension", "usdt", "hiv"]):
+        try:
+            P = at.demo(name, do_run=False)
+        except Exception:
+            continue
+        fw = P.framework
+        groups = {"with-page": [], "without-page": []}
+        for df in (fw.comps, fw.characs, fw.pars):
+            for c in df.index:
+                if len(str(c)) > 1:
+                    groups["without-page" if BK._isna(df.at[c, "databook page"]) else "with-page"].append(c)
+        for kind, cands in groups.items():
+            if not cands:
+                continue
+            code = ctx.rng.choice(sorted(cands))
+            d = sc.dcp(P.data)
+            old = list(d.pops.keys())[0]
+            try:
+                d.rename_pop(old, code, d.pops[old]["label"])
+                ss = d.to_spreadsheet()
+            except Exception as e:
+                ro = describe(e)
+            else:
+                ro = _try_databook(fw, ss, run=False)
+            ctx.count("popname." + kind)
+            ctx.case({"probe": "population-code-name-collision", "demo": name, "kind": kind}, nontrivial=True)
+            key = {"api": "ProjectData", "mutation": "population.renamed_to_code_name." + kind}
+            replay = {"kind": "popname", "demo": name, "code": code, "old": old}
+            if ro["outcome"] == "accept":
+                rec.violation({**key, "outcome": "accepted"}, f"{name}: population {old!r} renamed to {code!r}, the code name of a framework quantity {kind.replace('-', ' a databook ')}: the databook is accepted (population names must differ from every framework code name)", replay)
+            elif ro["outcome"] not in DEDICATED["databook"]:
+                rec.violation({**key, "outcome": ro["outcome"], "where": ro["where"]}, f"{name}: population renamed to the framework code name {code!r}: raised {ro['outcome']} at {ro['where']}: {ro['msg'][:160]}", replay)
+
+
 def run(ctx):
     import atomica as at  # noqa
 
@@ -801,6 +841,7 @@ def run(ctx):
     run_errors(ctx, rec)
     run_frameworks(ctx, rec, nproc)
     run_books(ctx, rec, nproc)
+    probe_popname_collision(ctx, rec)
     ctx.extra["breaks_sample"] = [{k: (v if k != "log_tail" else v[-300:]) for k, v in b.items()} for b in ctx.breaks[:12]]
     ctx.extra["violation_keys"] = sorted(rec.n.items(), key=lambda kv: -kv[1])[:80]
     ctx.exhaustive = False
@@ -822,6 +863,19 @@ def replay(ctx, data):
             print("replay framework:", ro["outcome"], ro["where"], ro["msg"][:200])
             return 0 if (ro["outcome"] in DEDICATED["framework"] and not bad) else 1
         return 1 if bad else 0
+    if kind == "popname":
+        import atomica as at
+        import sciris as sc
+
+        P = at.demo(rp["demo"], do_run=False)
+        d = sc.dcp(P.data)
+        try:
+            d.rename_pop(rp["old"], rp["code"], d.pops[rp["old"]]["label"])
+            ro = _try_databook(P.framework, d.to_spreadsheet(), run=False)
+        except Exception as e:
+            ro = describe(e)
+        print("replay:", ro)
+        return 0 if ro["outcome"] in DEDICATED["databook"] else 1
     if kind == "framework":
         task = {"spec": rp["spec"], "chain": "full"} if rp.get("spec") else {"path": rp["path"], "chain": "blank"}
         ro = eval_framework(task)
